@@ -69,6 +69,10 @@ pub fn install_panic_hook() {
     }));
 }
 
+pub fn put_panic(m: String) {
+    LAST_PANIC.with(|p| *p.borrow_mut() = Some(m));
+}
+
 pub fn take_panic() -> Option<String> {
     LAST_PANIC.with(|p| p.borrow_mut().take())
 }
